@@ -559,6 +559,9 @@ def merge_paths(P, paths: list[Path], names):
     for n in names:
         val = paths[-1].env[n]
         for p in reversed(paths[:-1]):
-            val = P.ite(p.guard, p.env[n], val)
+            if isinstance(val, list):
+                val = [P.ite(p.guard, x, y) for x, y in zip(p.env[n], val)]
+            else:
+                val = P.ite(p.guard, p.env[n], val)
         env[n] = val
     return pcs, env
